@@ -27,6 +27,10 @@ fn probe() -> Fingerprint {
     // which worker ran which leaf
     let ids: Vec<usize> = (0..64usize).into_par_iter().map(|_| rayon::current_thread_index().unwrap_or(999)).collect();
     f.seq("leaf_workers", ids);
+    // combinators whose RESULT depends on shared state (preemption points in the vendored rayon)
+    let order: Vec<u32> = (0..96u32).par_bridge().collect();
+    f.seq("par_bridge_order", order);
+    f.one("find_any", (0..4096u32).into_par_iter().find_any(|x| x % 97 == 13));
     f
 }
 
@@ -108,7 +112,7 @@ fn run_pinned() -> i32 {
             fail(&format!("entropy seam not live: `{n}` did not change with the entropy seed"));
         }
     }
-    for n in ["parsum", "clock", "leaf_workers"] {
+    for n in ["parsum", "clock", "leaf_workers", "par_bridge_order", "find_any"] {
         if field(&base, n) != field(&ee, n) {
             fail(&format!("`{n}` changed with the entropy seed alone"));
         }
@@ -128,6 +132,11 @@ fn run_pinned() -> i32 {
     if os.stats.steals == 0 || field(&base, "leaf_workers") == field(&fs, "leaf_workers") {
         fail("scheduler seam not live: no steal / leaves all ran on one worker");
     }
+    let ech = Env { threads: 4, policy: "chaos".into(), sched_seed: 3, ..Env::reference() };
+    let fch = run_sim(&ech, probe).results.unwrap().remove(0);
+    if field(&base, "par_bridge_order") == field(&fch, "par_bridge_order") {
+        fail("preemption points not live: par_bridge().collect() gave the same order on 1 worker and on 4 chaotic workers");
+    }
     if field(&base, "parsum") == field(&fs, "parsum") {
         fail("control: a parallel float sum did not change its bits between 1 and 4 simulated workers");
     }
@@ -141,6 +150,7 @@ fn run_pinned() -> i32 {
             entropy_seed: seed * 7 + 1,
             clock_seed: seed * 3,
             context: [Context::External, Context::InWorker, Context::Siblings, Context::Warm][(seed % 4) as usize],
+            cpus: 1 + (seed % 3) as usize,
             replay: None,
         };
         let a = run_sim(&e, probe);
